@@ -149,7 +149,7 @@ class Listing:
             out.append(Tok("I", key=ln["k"], kind=e["kind"],
                            data=vocab.encode(self.isa, ln["k"],
                                              ln.get("imm")),
-                           target=ln.get("t"), addend=0,
+                           target=ln.get("t"), addend=ln.get("add", 0),
                            sym=e["sym"] if ln.get("t") else None, fn=fn,
                            uid=("p", inv, k), patch=inv))
             k += 1
